@@ -572,9 +572,22 @@ class no_abstract:
         ABSTRACT[0], FORK[0] = self.prev
 
 
+_fresh = [0]
+
+
 def reset_path():
     del _defs[:]
     del _facts[:]
+    _fresh[0] = 0
+
+
+def fresh_unspecified(prefix='unspec'):
+    """an arbitrary float (any real, +-inf or nan): result of an operation whose contract leaves it unspecified"""
+    _fresh[0] += 1
+    n = f'{prefix}!{_fresh[0]}'
+    p, q, r = z3.Bool(n + '!pinf'), z3.Bool(n + '!ninf'), z3.Bool(n + '!nan')
+    _facts.append(z3.AtMost(p, q, r, 1))
+    return SX(z3.Real(n), nan=r, pinf=p, ninf=q)
 
 
 def path_defs():
